@@ -1,7 +1,97 @@
+import MesonModel.Cargo.Model
 import Driver.Proto
-/- driver commands of area `cargo` (stub until the area is built) -/
+/- driver commands of area `cargo` (C20) -/
 namespace Driver.Cargo
+open MesonModel.Cargo Driver
 
-def handle (cmd : String) (fs : List String) : String := "bad-op"
+def showOp : Op → String
+  | .ge => ">=" | .le => "<=" | .ne => "!=" | .tilde => "~" | .eq => "=" | .caret => "^"
+  | .gt => ">" | .lt => "<"
+
+def showComp : Comp → String
+  | .int n => s!"i{n}"
+  | .str s => "s" ++ encodeStr s
+
+def showSemVer (x : SemVer) : String :=
+  s!"{x.count};{boolStr x.hasPre};" ++ ",".intercalate (x.v.map showComp)
+
+def showTok : Token → String
+  | .lparen => "L" | .rparen => "R" | .comma => "C" | .equal => "E"
+  | .all => "ALL" | .any => "ANY" | .not => "NOT"
+  | .str s => "S" ++ encodeStr s
+  | .ident s => "I" ++ encodeStr s
+
+def readTok (w : String) : Option Token :=
+  if w == "L" then some .lparen else if w == "R" then some .rparen
+  else if w == "C" then some .comma else if w == "E" then some .equal
+  else if w == "ALL" then some .all else if w == "ANY" then some .any
+  else if w == "NOT" then some .not
+  else if w.startsWith "S" then some (.str (decodeStr (w.drop 1).toString))
+  else if w.startsWith "I" then some (.ident (decodeStr (w.drop 1).toString))
+  else none
+
+def readToks (f : String) : List Token :=
+  if f.trimAscii.isEmpty then [] else (f.splitOn ",").filterMap readTok
+
+mutual
+def showIR : IR → String
+  | .ident n => "I(" ++ encodeStr n ++ ")"
+  | .equal n v => "Q(" ++ encodeStr n ++ ";" ++ encodeStr v ++ ")"
+  | .not e => "NOT[" ++ showIR e ++ "]"
+  | .any as => "ANY[" ++ showIRs as ++ "]"
+  | .all as => "ALL[" ++ showIRs as ++ "]"
+def showIRs : List IR → String
+  | [] => ""
+  | [e] => showIR e
+  | e :: es => showIR e ++ "," ++ showIRs es
+end
+
+def showErr : PErr → String
+  | .expectedString => "ERR:expected-string"
+  | .expectedLParen => "ERR:expected-lparen"
+  | .expectedRParenComma => "ERR:expected-rparen-or-comma"
+  | .expectedRParen => "ERR:expected-rparen"
+  | .unhandled => "ERR:unhandled-token"
+  | .malformed => "ERR:malformed"
+  | .trailing => "ERR:trailing"
+  | .assertion => "ERR:AssertionError"
+  | .fuel => "ERR:model-fuel"
+
+/-- `k=v,k=v` with both sides code-point encoded -/
+def readCfgs (f : String) : Cfgs :=
+  if f.trimAscii.isEmpty then [] else
+  (f.splitOn ",").map (fun kv =>
+    match kv.splitOn "=" with
+    | [k, v] => (decodeStr k, decodeStr v)
+    | _ => ([], []))
+
+def handle (cmd : String) (fs : List String) : String :=
+  match cmd, fs with
+  | "split", [r] =>
+    ";".intercalate ((split (decodeStr r)).map (fun c => showOp c.1 ++ ":" ++ encodeStr c.2))
+  | "semver", [s] => showSemVer (SemVer.parse (decodeStr s))
+  | "cmp", [a, b] =>
+    let x := (SemVer.parse (decodeStr a)).v; let y := (SemVer.parse (decodeStr b)).v
+    "".intercalate ([vlt x y, vgt x y, vle x y, vge x y, veq x y, vne x y].map boolStr)
+  | "match", [r, v] => boolStr (cargoParse (decodeStr r) (decodeStr v))
+  | "api", [r] =>
+    match api (decodeStr r) with
+    | .ok a => "OK:" ++ encodeStr a
+    | .error .valueError => "ERR:ValueError"
+    | .error .mesonException => "ERR:MesonException"
+  | "lex", [r] => ",".intercalate ((lexer (decodeStr r)).map showTok)
+  | "parse", [ts] =>
+    match parse (readToks ts) with
+    | .ok e => "OK:" ++ showIR e
+    | .error e => showErr e
+  | "lexparse", [r] =>
+    match parse (lexer (decodeStr r)) with
+    | .ok e => "OK:" ++ showIR e
+    | .error e => showErr e
+  | "evalcfg", [r, cs] =>
+    match evalCfg (decodeStr r) (readCfgs cs) with
+    | .ok b => boolStr b
+    | .error e => showErr e
+  | _, _ => "bad-op"
 
 end Driver.Cargo
